@@ -20,7 +20,7 @@ _T = {
  "C04": ("one commit of the complete path map after the root value exists on every normal path, no other committer; load = path -> key -> "
          "blob; writer and reader location terms agree per store; destructive effects confined to the committed path",
          "CFG must-pass-through, def-use identity, file-system effect summaries"),
- "C05": ("totality (partial primitives such as struct.pack guarded by their domain), determinism, no component dropped and order kept in "
+ "C05": ("totality (partial primitives such as struct.pack guarded by their domain), determinism, no digest memo keyed by value equality (lru_cache, module-level or hasher-local mapping), no component dropped and order kept in "
          "container branches, boundary pre-images pairwise distinct (abstract evaluation on None, '', [], (), {}, empty dataclass), numeric "
          "encodings of disjoint length / tagged, size guard dominates iteration",
          "abstract evaluation of the value hasher on boundary classes, CFG dominance, table of partial primitives"),
@@ -34,12 +34,12 @@ _T = {
          "always publishes the marker", "segment-domain abstract evaluation of path expressions, CFG dominance, term equality"),
  "C09": ("call-tree traversals keyed on their own parameter, every in-evaluation producer registers its path before later siblings are "
          "analysed, a read-before-produce reaches a DDSException (at the load's visit), run-time load consults the evaluation's map, "
-         "external loads resolved before analysis, loaded paths are a signature component with duplicates removed",
+         "external loads resolved before analysis, loaded paths are a signature component with duplicates removed, the keys of the pairs inside one source of a combined signature are pairwise distinct (position or mapping key, never the element of a sequence)",
          "def-use dependence of recursion guards, CFG dominance, who-must-register"),
  "C10": ("context reset post-dominates every context set (exceptional edges included), store_blob / sync_paths dominated by the normal "
          "completion of the user call / root value and outside handlers, who-may-call for the store mutators, no swallowing handler "
          "around the user call", "CFG dominance / post-dominance with exceptional edges, reaching definitions, who-may-call"),
- "C11": ("groupby only over input sorted by the same key, cycle test dominates every descent with the stack extended by the callee "
+ "C11": ("groupby / scan of runs only over input sorted by the same key, cycle test dominates every descent with the stack extended by the callee "
          "actually descended into, nested-eval rejection static x2 + dynamic, analysis and rejections dominate the first user call and "
          "store mutation, sibling agreement of the two inspectors, required rejection codes exist",
          "CFG dominance, reaching definitions, sibling cross-check"),
